@@ -18,6 +18,10 @@ CHECKS = {
    technique=RM + 'automaton built by the real pattern front end and dfa_builder read from memory; language equivalence with a reference DFA (Glushkov + subset construction); every difference replayed through the real matcher',
    text='Tens of thousands (quick) to millions (thorough) of generated patterns plus a fixed corpus are built by the real code at run time and, for a sample, during constant evaluation; each automaton is compared exactly (all 256 byte values) with the reference language. Patterns that need determinisation or have nested loops are keyed to recorded findings; everything else is an obligation.',
    note='trusts lib/vf/ref_regex.py (cross-checked against Python re); known findings D8/D8b bound what can be claimed'),
+ 'C04': dict(level='exploration', design='DESIGN.md §6 C04',
+   technique=RM + 'merged lexer automaton read through the hook and compared as a tagged language with a reference union automaton; token events (term, offset, length, line, column) of real parses compared with reference maximal munch',
+   text='Fixed and random term sets under an any-token-sequence grammar: which term wins after every string (exact, by product search) and end-to-end tokenisation under all whitespace options and three buffer kinds, including the Unexpected-character failure.',
+   note='trusts lib/vf/ref_regex.py; term sets whose union needs determinisation are keyed to the recorded D8 finding unless in the fixed corpus'),
  'C05': dict(level='exploration', design='DESIGN.md §6 C05',
    technique=RM + 'dumped parse tables compared cell by cell with a reference table resolved by the documented rule; logged derivations of operator chains compared with the reference and an independent operator-precedence grouping',
    text='Random expression grammars (precedence incl. negative/equal, associativity, explicit [n], prefix/postfix/juxtaposition), dangling-else shapes and generic S/R grammars: every table cell and the grouping of long operator chains must follow the documented resolution.',
@@ -50,6 +54,10 @@ CHECKS = {
    technique=RM + 'same case run under verbose on/off x {no stream, std::ostream, user stream}; results/functor logs compared; verbose text parsed into events and checked against the reference action sequence and the functor log',
    text='Outcome must not depend on verbosity or stream type; the verbose trace must be exactly the reference action sequence (states renamed through the table isomorphism), contain the non-verbose messages unchanged and name the right pending term in every Recognized line.',
    note='reference as C01'),
+ 'C19': dict(level='exploration', design='DESIGN.md §6 C19',
+   technique=RM + 'complete run-time enumeration of the finite space of helper-functor instantiations with tracked arguments under ASan+UBSan',
+   text='All 1026 instantiations (arity x position (pair) x value category) are executed; identity/value of the result, copies and moves of every argument and of the container are checked. The space is finite and enumerated completely.',
+   note='arities above 9 are not part of the documented helpers'),
  'C17': dict(level='exploration', design='DESIGN.md §6 C17',
    technique=RM + 'malformed patterns fed to the real pattern parser/builder/analyzer through a bounds-monitoring buffer; generated programs run through the constant evaluators of g++ and clang++ and constructed at run time',
    text='Strings broken in the ways the property names must be refused by parser, builder and size analyzer without reading outside the pattern; regex_term/regex::expr with such patterns and grammars naming undeclared symbols must not be constant expressions and must throw at run time.',
